@@ -3,7 +3,7 @@ from xv.props import alloc_common as ac
 
 ID = "C04"
 LEVEL = "exploration"
-N_QUICK, N_THOROUGH = 16000, 400000
+N_QUICK, N_THOROUGH = 48000, 400000
 T_QUICK, T_THOROUGH = 60, 1200
 FLOORS = {"histories": 1000, "growths": 200, "frees": 5000, "stamp_checks": 20000}
 FLOORS["impossible_requests_refused"] = 200
